@@ -83,6 +83,7 @@ pub fn start(config: Config) -> Result<Tracker, String> {
             ok &= !c.recv_some(1, Duration::from_millis(100)).is_empty();
         }
         if ok {
+            LIVE_SOCKET_WORKERS.fetch_add(t.config.socket_workers, std::sync::atomic::Ordering::SeqCst);
             return Ok(t);
         }
         if t0.elapsed() > Duration::from_secs(15) {
@@ -96,11 +97,27 @@ pub fn counter(name: &str) -> u64 {
 }
 
 /// Wait until every socket worker has refreshed its time sample at least twice after now
-pub fn wait_time_refreshed(workers: usize, uring: bool) -> bool {
-    let start = counter("udp.time_refreshed");
-    let need = 2 * workers as u64;
-    vcore::net::wait_until(if uring { 16_000 } else { 6_000 }, || counter("udp.time_refreshed") >= start + need)
+pub fn wait_time_refreshed(_workers: usize, _uring: bool) -> bool {
+    // every socket worker thread alive in this process (trackers never stop once started)
+    let live = LIVE_SOCKET_WORKERS.load(std::sync::atomic::Ordering::SeqCst);
+    wait_all_threads("udp.time_refreshed", 2, live, 60_000)
 }
+
+pub static LIVE_SOCKET_WORKERS: std::sync::atomic::AtomicUsize = std::sync::atomic::AtomicUsize::new(0);
+
+/// Wait until at least `threads` worker threads have each passed the per-thread hook `name` at least `n` times after
+/// now (a global count could be produced by one busy worker while another is starved). Wall-clock bound only as a
+/// watchdog: a false return is "inconclusive", never a verdict.
+pub fn wait_all_threads(name: &str, n: u64, threads: usize, timeout_ms: u64) -> bool {
+    let prefix = format!("{}@", name);
+    let snap = || -> std::collections::BTreeMap<String, u64> { aquatic_common::verif::counters().into_iter().filter(|(k, _)| k.starts_with(&prefix)).collect() };
+    let start = snap();
+    vcore::net::wait_until(timeout_ms, || {
+        let now = snap();
+        now.iter().filter(|(k, v)| **v >= start.get(*k).copied().unwrap_or(0) + n).count() >= threads
+    })
+}
+
 
 pub fn wait_cleans(n: u64) -> bool {
     let start = counter("udp.clean_done");
